@@ -536,11 +536,10 @@ func (fr *Frame) convert(st *State, x Value, from, to types.Type) Value {
 			return Scalar{UF("i2f", SInt, xs.T)}
 		}
 		if tt.Info()&types.IsInteger != 0 && fb.Info()&types.IsFloat != 0 {
-			r := UF("f2i", SInt, xs.T)
-			if lo, hi, ok := intRange(tt); ok {
-				st.assume(And(Le(IntB(lo), r), Le(r, IntB(hi))))
-			}
-			return Scalar{r}
+			// the truncated value (spec: trunc(x)), wrapped into the target type like an integer
+			// narrowing (what amd64 does for |x| < 2^63; Go leaves out-of-range results to the
+			// implementation - listed as an assumption)
+			return Scalar{wrapInt(UF("f2i", SInt, xs.T), tt)}
 		}
 		return xs
 	case *types.Slice:
